@@ -31,6 +31,8 @@ INVALID = [
     ("line_ending", "cr"), ("encoding", "klingon"), ("format_multiline_strings", "perhaps"),
     ("no_such_option", "1"), ("wrapcolumn", "30"),
     ("wrap_column", "[30]"), ("tab_width", "0x10"), ("begin_style", "1"), ("line_ending", "true"),
+    # keys are case-sensitive, in every source
+    ("WRAP_COLUMN", "30"), ("Use_Tabs", "true"), ("Tab_width", "4"), ("wrap-column", "30"),
 ]
 # scalar values of another scalar type: the `config` crate coerces these instead of rejecting them
 # (known finding; kept in the exploration with their own signature). Written as raw TOML.
@@ -94,6 +96,14 @@ def explore(tier, seed):
                 # a split: first option only in the file source, second only on the command line
                 if len(oset) == 2:
                     jobs.append((n, depth, oset, [("file", 0, [oset[0]]), ("C", None, [oset[1]])])); n += 1
+                    # sources that shadow one another set different keys: nothing of a shadowed source may
+                    # leak (a discovered file under --config-file, a farther file under the nearest one)
+                    for lvl in levels:
+                        jobs.append((n, depth, oset, [("file", lvl, [oset[0]]), ("config-file", None, [oset[1]])])); n += 1
+                        jobs.append((n, depth, oset, [("file", lvl, [oset[0]]), ("config-file", None, [oset[1]]), ("C", None, [oset[1]])])); n += 1
+                    if depth > 0:
+                        jobs.append((n, depth, oset, [("file", 0, [oset[0]]), ("file", depth, [oset[1]])])); n += 1
+                        jobs.append((n, depth, oset, [("file", depth // 2, [oset[1]]), ("file", depth, oset)])); n += 1
 
         def run_job(job):
             k, depth, oset, present = job
